@@ -2,7 +2,7 @@
    Everything is about the machines of Sup/Machine.v (supOFO / supARFO / supSOFO transcribed function by
    function) and holds for ANY machine state: any number of child specs, any pids, any wait set, hence after
    any history; the theorems over [reachable] quantify over all histories of machine calls explicitly. *)
-From Ergo Require Import Common.Base Sup.Intensity Sup.Machine Sup.MachineProofs Sup.OfoLoop Sup.SofoLoop.
+From Ergo Require Import Common.Base Sup.Intensity Sup.Machine Sup.MachineCases Sup.MachineProofs Sup.OfoLoop Sup.SofoLoop Sup.ArfoLoop Sup.ArfoMore.
 Local Open Scope Z_scope.
 
 (* No child termination goes unnoticed: the spec list after childTerminated is the old one with the pid of the
@@ -240,3 +240,99 @@ Theorem C08_quiescent_children_sofo_from_init : forall k cs h,
   end.
 Proof. exact sofo_closed_loop_from_init. Qed.
 Print Assumptions C08_quiescent_children_sofo_from_init.
+
+(* The closed loop, all-for-one / rest-for-one (supARFO, KeepOrder on and off), through the DRIVER of Sup/Machine.v
+   (step = exit branch of ProcessRun + handleAction + environment).  [Inv k s a] is the loop invariant between a driver
+   state s and a state a of the specification (one constructor per phase: normal / stopping for a restart /
+   shutting down / dead).  [op_ok]: the environment guard (exit of ANY live child -- told to stop or not, during a
+   restart or a shutdown, of a freshly restarted instance --, exit of a pid that is no child, clock shift; each pid
+   exits once; no spawn failure).  [settle]/[chk] are the two halves of the monitor step [agree]. *)
+
+(* one operation keeps the invariant, for every state meeting it *)
+Theorem C08_arfo_step_invariant : forall k, is_arfo k = true -> forall s a o,
+  Inv k s a -> op_ok s o ->
+  Inv k (step k s o) (settle (snap_of (step k s o)) (a_step k a (children s) o)).
+Proof. exact step_ok. Qed.
+Print Assumptions C08_arfo_step_invariant.
+
+(* what the invariant says: quiescent (no exit signal outstanding) <-> normal mode; in normal mode the children the
+   machine records as running are the prescribed ones; otherwise the machine is in mode 2 or 3 *)
+Theorem C08_arfo_quiescent_iff_normal : forall k s a, is_arfo k = true -> Inv k s a -> alive s = true ->
+  (is_nil (outstanding s) = true <-> mode (m s) = 0) /\
+  (mode (m s) = 0 -> a_phase a = ANormal /\ m_view k (m s) = a_view a /\ wait (m s) = []) /\
+  (mode (m s) = 0 \/ mode (m s) = 2 \/ mode (m s) = 3).
+Proof. exact Inv_quiescent. Qed.
+Print Assumptions C08_arfo_quiescent_iff_normal.
+
+(* the monitor verdict is true in every state meeting the invariant (alive + quiescent: normal and views equal;
+   dead: the specification is dead with the same reason; busy: the specification is not dead) *)
+Theorem C08_arfo_invariant_verdict : forall k s a, is_arfo k = true -> Inv k s a -> chk k a (snap_of s) = true.
+Proof. exact Inv_chk. Qed.
+Print Assumptions C08_arfo_invariant_verdict.
+
+(* ProcessInit establishes it, for every child list with distinct non-empty names *)
+Theorem C08_arfo_start_establishes_invariant : forall k cs,
+  is_arfo k = true -> cs <> [] -> NoDup (map fst cs) -> Forall (fun c => fst c <> 0) cs ->
+  let s := start k cs 0 in alive s = true /\ Inv k s (a_init k cs).
+Proof. exact arfo_start_establishes_invariant. Qed.
+Print Assumptions C08_arfo_start_establishes_invariant.
+
+(* C08_quiescent_children for supARFO: from any state meeting the invariant, for EVERY history allowed by env_ok, the monitor
+   walk of Sup/MachineCases.v (the definition the run-time monitor spec_prescribed evaluates on implementation
+   observations) is true on the run of the driver *)
+Theorem C08_quiescent_children_arfo : forall k, is_arfo k = true -> forall ops s a,
+  Inv k s a -> env_ok k s ops -> walk k a (snap_of s) ops (fst (run_snaps k s ops)) = true.
+Proof. exact arfo_walk. Qed.
+Print Assumptions C08_quiescent_children_arfo.
+
+Theorem C08_quiescent_children_arfo_from_init : forall k cs ops,
+  is_arfo k = true -> cs <> [] -> NoDup (map fst cs) -> Forall (fun c => fst c <> 0) cs ->
+  env_ok k (start k cs 0) ops ->
+  spec_prescribed (model_case k cs ops) = true.
+Proof. exact arfo_closed_loop_from_init. Qed.
+Print Assumptions C08_quiescent_children_arfo_from_init.
+
+(* group restart in spec order, on the event log of the driver: in any driver state in starting mode whose restart
+   range [r..] is down, the start chain of handleAction spawns exactly the specs of the range in spec order with
+   consecutive fresh pids and records them at their positions (the closed loop reaches the chain only in such states:
+   leaf_chain in Sup/ArfoLoop.v) *)
+Theorem C08_arfo_restart_in_spec_order : forall k s r x post,
+  is_arfo k = true -> indexed (specs (m s)) -> mode (m s) = 1 -> skipn r (specs (m s)) = x :: post ->
+  Forall (fun c => c_pid c = 0 /\ c_dis c = false) (x :: post) ->
+  (forall q, In q (map fst (children s)) -> q < nextpid s) ->
+  let res := handleAction k (fuel_of s) 0 s (RAct (StartChild x)) in
+  snd res = HNil /\
+  events (fst res) = events s ++ spawn_events (assign (x :: post) (nextpid s)) /\
+  specs (m (fst res)) = firstn r (specs (m s)) ++ assign (x :: post) (nextpid s) /\
+  mode (m (fst res)) = 0.
+Proof. exact arfo_restart_in_spec_order. Qed.
+Print Assumptions C08_arfo_restart_in_spec_order.
+
+(* known finding C08-stale-exit as a witness: DisableChild + EnableChild with the old instance's exit still queued ->
+   alive, quiescent, normal mode, but a live child is recorded by no spec; no invariant Inv holds afterwards.  The
+   closed-loop theorems therefore allow no management calls (op_ok); for them C08_quiescent_children stays a monitor. *)
+Theorem C08_arfo_stale_exit_refuted :
+  exists k cs ops,
+    is_arfo k = true /\
+    let s := run k cs 0 ops in
+    alive s = true /\ is_nil (outstanding s) = true /\ mode (m s) = 0 /\ unrecorded_live_child s = true /\
+    spec_prescribed (model_case k cs ops) = true.
+Proof. exact arfo_stale_exit_refuted. Qed.
+Print Assumptions C08_arfo_stale_exit_refuted.
+
+Theorem C08_arfo_stale_exit_breaks_invariant :
+  forall a, ~ Inv stale_cfg (run stale_cfg stale_children 0 stale_ops) a.
+Proof. exact arfo_stale_exit_breaks_invariant. Qed.
+Print Assumptions C08_arfo_stale_exit_breaks_invariant.
+
+(* stopping in reverse order, one by one (closed loop part): while the machine stops the range for a restart its wait
+   set is exactly the set of outstanding exit signals and its restart index is the range of the specification; with
+   C08_arfo_stopping_waits (nothing more is sent while that set is non-empty) and
+   C08_keeporder_stops_reverse_one_by_one (the next stop list is the last running child of the range) the children of the
+   range are told to stop last-first, each only after the previous one is gone *)
+Theorem C08_arfo_stopping_wait_is_outstanding : forall k s a,
+  Inv k s a -> alive s = true -> mode (m s) = 2 ->
+  (forall p, In p (wait (m s)) <-> In p (outstanding s)) /\
+  exists r, a_phase a = ARestart r /\ restartI (m s) = r.
+Proof. exact arfo_stopping_wait_is_outstanding. Qed.
+Print Assumptions C08_arfo_stopping_wait_is_outstanding.
